@@ -142,6 +142,8 @@ pub fn flush(ctx: &mut Ctx, out: Option<Out>, input: &dyn Fn() -> Value) {
 }
 
 pub fn run(ctx: &mut Ctx) {
+    // the asan profile runs every 3rd case of each stream
+    ctx.asan_stride = 3;
     let av0 = gimli::verif::get(&gimli::verif::ARRAYVEC_OPS);
     ctx_reuse::run(ctx);
     let av1 = gimli::verif::get(&gimli::verif::ARRAYVEC_OPS);
